@@ -26,6 +26,7 @@ import SSEPyVerif.Proofs.Schemes.Stamped
 import SSEPyVerif.Proofs.Schemes.StampedLevels
 import SSEPyVerif.Proofs.Schemes.DP17Cells
 import SSEPyVerif.Proofs.Schemes.SSE1Stamped
+import SSEPyVerif.Proofs.Schemes.ChainStamped
 namespace SSEPy.C04
 open SSEPy.Sch SSEPy.Sch.Chain
 
@@ -178,5 +179,23 @@ theorem DP17.real_cells_start_with_draws (cfg : DP17Cfg) (lv : Leaves) (etag iv 
 theorem SSE1.array_from_randomness (cfg : SSE1Cfg) (lv : Leaves) (K1 K2 K3 K4 : Bytes) (db : DB) (t t' : Tape) (edb : SSE1EDB)
     (h : SSE1.setup cfg lv [K1, K2, K3, K4] db t = .ok (edb, t')) : ∀ c ∈ edb.A, FromTape t c :=
   SSE1.setup_cells_from cfg lv K1 K2 K3 K4 db t t' edb h
+
+
+/-- PiBas and PiPack, whole runs: EVERY value of the dictionary `EDBSetup` returns is a ciphertext that starts with the 16
+    random bytes drawn for it in this run (every key, database and tape; identifiers — single or packed into blocks — enter the
+    index only as plaintexts of the randomized cipher) … -/
+theorem Chain.index_is_ciphertexts (cfg : ChainCfg) (lv : Leaves) (K : Bytes) (db : DB) (t t' : Tape) (D : Table)
+    (h : Chain.setup cfg lv K db t = .ok (D, t')) : ∀ p ∈ D, Stamped t p.2 :=
+  Chain.setup_stamped cfg lv K db t t' D h
+
+/-- … so two set-ups whose draws do not overlap share no stored value, even for the same key and the same database -/
+theorem Chain.reencryption_shares_nothing (cfg : ChainCfg) (lv : Leaves) (K K' : Bytes) (db db' : DB) (t t' u u' : Tape)
+    (D D' : Table) (h : Chain.setup cfg lv K db t = .ok (D, t')) (h' : Chain.setup cfg lv K' db' u = .ok (D', u'))
+    (hdis : ∀ b, Draw.bytes b ∈ t → Draw.bytes b ∉ u) : ∀ p ∈ D, ∀ q ∈ D', p.2 ≠ q.2 := by
+  intro p hp q hq e
+  have h1 := Chain.setup_stamped cfg lv K db t t' D h p hp
+  have h2 := Chain.setup_stamped cfg lv K' db' u u' D' h' q hq
+  rw [e] at h1
+  exact hdis _ h1 h2
 
 end SSEPy.C04
